@@ -388,6 +388,21 @@ Section Charts.
         | Some cd => ChartOk (chart_object_name start end_) cd
         end
     end.
+  (* a read fault: the reader of day fd's merged object fails (connection
+     reset, reader bound to a done context) after delivering k records.  Since
+     fix 0ab09db readMergedReports decodes until io.EOF and returns any other
+     error, so the day reads as an error whatever k is; a missing object is
+     still "not found" (NewReader fails before anything is read). *)
+  Definition read_with_fault (fault : option (Z * nat)) (read : Z -> read_result) (d : Z) : read_result :=
+    match fault with
+    | Some (fd, _) => if Z.eqb d fd then match read d with RNotFound => RNotFound | _ => RErr end else read d
+    | None => read d
+    end.
+
+  Definition handle_chart_fault (fault : option (Z * nat)) (cfg : config) (read : Z -> read_result)
+      (start end_ : Z) : chart_result :=
+    handle_chart cfg (read_with_fault fault read) start end_.
+
   (* the request context (live, or done once `done_after` objects have been
      opened: Timeout middleware, client disconnect).  The file-system store
      ignores it and handleChart never consults it: the request is served in
